@@ -1145,7 +1145,19 @@ class Interp:
             if b is None:
                 raise Unsupported("unknown array " + str(node.items[0]))
             if b.tname == "struct":
-                raise Unsupported("array of structures element")
+                # element of an array of structures with literal subscripts: a separate object
+                subs = node.items[1].items if isinstance(node.items[1], F.Section_Subscript_List) \
+                    else [node.items[1]]
+                ivs = []
+                for sub in subs:
+                    iv = None if isinstance(sub, F.Subscript_Triplet) else intval(self.ev_scalar(sub, frame, g))
+                    if iv is None:
+                        raise Unsupported("array of structures element")
+                    ivs.append(iv)
+                if len(ivs) != b.rank:
+                    raise Unsupported("struct array rank")
+                return ("struct", Binding(b.name, "struct", b.key + "[" + ",".join(map(str, ivs)) + "]",
+                                          rank=0, struct=b.struct))
             return self._subscripted(b, node.items[1], frame, g)
         if isinstance(node, F.Data_Ref):
             return self._data_ref(node, frame, g)
@@ -1232,7 +1244,9 @@ class Interp:
             last = pi == len(parts) - 2
             if tname == "struct":
                 if last:
-                    raise Unsupported("whole structure component")
+                    if idx or rank or isinstance(p, F.Part_Ref):
+                        raise Unsupported("whole structure component")
+                    return ("struct", Binding(cname, "struct", key, rank=0, struct=sub_dtype))
                 if isinstance(p, F.Part_Ref):
                     for sub in p.items[1].items:
                         if isinstance(sub, F.Subscript_Triplet):
